@@ -53,6 +53,11 @@ impl OptSet {
             create_if_missing: true,
             error_if_exists: false,
             filesystem_provider: Arc::new(fs.clone()),
+            // the filter sizing is a setting like the others and changes with them at reopens
+            // (a filter written with one bits-per-key setting must stay readable under any other)
+            filter_policy: Arc::new(raindb::BloomFilterPolicy::new(
+                [10usize, 6, 20, 45][(self.memtable / 100 + self.block + self.file as usize) % 4],
+            )),
             ..DbOptions::default()
         }
     }
